@@ -256,6 +256,26 @@ func VerifRecursiveImport() {
 	}
 	verifrt.Assert(err == nil && lnk != nil, "import:ok")
 	checkImported(ls, lnk, root)
+	if verifrt.Param("twice", 1) == 1 {
+		// the same tree imported again, into another (empty) store: the result must be
+		// complete there too (nothing remembered from the first import stands in for a write)
+		st2 := verifmodel.NewStore()
+		ls2 := st2.LinkSystem()
+		var lnk2 datamodel.Link
+		if verifrt.Native() {
+			dir, _ := os.MkdirTemp("", "verifc18b")
+			defer os.RemoveAll(dir)
+			p := filepath.Join(dir, "r")
+			materialise(root, p)
+			lnk2, _, err = builder.BuildUnixFSRecursive(p, ls2)
+		} else {
+			lnk2, _, err = builder.BuildUnixFSRecursive("/t/r", ls2)
+		}
+		verifrt.Assert(err == nil && lnk2 != nil, "import:ok")
+		verifrt.Assert(lnk2 == lnk, "import:second-import-same-root")
+		checkImported(ls2, lnk2, root)
+		verifrt.Reach("second-import")
+	}
 	if m != nil {
 		for p, n := range m.byPath {
 			if kindOf(n.mode) == 1 {
